@@ -41,7 +41,7 @@ def all_paths():
     out |= {"/e\u0301", "/e\u0301/x", "/Ã©", "/Ã©/x", "/é", "/é/x", "/a.b", "/axb", "/A", "/a/b/c", "/apix/a", "/api/x/y"}
     # a prefix followed by a line break or another control character (sent as %0A ...): not the prefix, not below it
     out |= {p + c + t for p in ("/a", "/api", "/a/b", "/ab") for c in ("\n", "\r", "\r\n", "\x00", "\t", " ", "\x0b", "\u2028") for t in ("", "/x")}
-    out |= {"\n", "/\n", "*", "api/x"}
+    out |= {"\n", "/\n", "*", "api/x", "/a;x", "/api;v=1/x", "/a/b;jsessionid=1", "/ab;"}
     out |= {p + t for p in ("/a%2Fb", "/50%25", "/50%", "/a%41", "/aA") for t in ("", "/", "/x")}
     out |= {p + t for p in ("/a//b", "/a/./b", "/a/../b", "/.", "/b", "/a/b") for t in ("", "/", "/x")}
     return sorted(out)
@@ -211,9 +211,9 @@ def run_mount(ctx, table, root, path, apps=None):
     return nt
 
 
-HOST_PATTERNS = [r"node..internal", r"10.0.0.1", r"example.com", r"example\.com:80", r"example\.com:443", r"example\.com", r"(www\.)?example\.com", r".*\.example\.com", r"api\.example\.com", r"example", r".*", r"",
+HOST_PATTERNS = [r"(\w+)\.\1\.example\.com", r"(a|b)\1\.com", r"node..internal", r"10.0.0.1", r"example.com", r"example\.com:80", r"example\.com:443", r"example\.com", r"(www\.)?example\.com", r".*\.example\.com", r"api\.example\.com", r"example", r".*", r"",
                  r"[a-z]+\.com", r"example\.com(:\d+)?", r"EXAMPLE\.COM", r"ex", r"com", r"e.*m", r"^example\.com$", r"static\..*", r"\w+\.example\.com", r"[^.]+\.example\.com", r"example\.com\.", r"(www\.)?example\.com\.?"]
-HOSTS = ["node12internal", "node..internal", "10a0b0c1", "10.0.0.1", "exampleXcom", "example.com:80", "example.com:443", "example.com", "www.example.com", "API.example.com", "Example.Com", "api.example.com", "xexample.com", "example.comx", "example.com:8000", "", None, "EXAMPLE.COM",
+HOSTS = ["eu.eu.example.com", "eu.us.example.com", "aa.com", "ab.com", "node12internal", "node..internal", "10a0b0c1", "10.0.0.1", "exampleXcom", "example.com:80", "example.com:443", "example.com", "www.example.com", "API.example.com", "Example.Com", "api.example.com", "xexample.com", "example.comx", "example.com:8000", "", None, "EXAMPLE.COM",
          "example", "static.example.com", "a.b.example.com", "example.com ", " example.com", "ex", "com", "api.example.com.evil.org", "caf\xe9.example.com", "\xfcber.example.com", "a" * 290 + ".example.com", "x" * 254 + ".com", "example.com.", "www.example.com.", "example.com..", ".example.com"]
 
 
